@@ -31,6 +31,7 @@ def inPipeline (item : String) : Bool :=
 def handlingOf (item : String) : Option Handling :=
   if !inPipeline item then some .notInPipeline
   else if item == "GraphBasedModelConstructor.detected_known_isoforms" then some .resetPerTask
+  else if item == "GraphBasedModelConstructor.reported_novel_chains" then some .resetPerTask   -- fix b2b4dd9 (C04)
   else if item == "ReadAssignment.assignment_id_generator" then some .idOnly
   else if item == "FeatureInfo.feature_id_counter" then some .idOnly
   else if item == "MultimapResolver.duplicate_counter" then some .logOnly
